@@ -27,7 +27,9 @@ CONV = {
     ("ANGLE", "deg"): (lambda r: r * 180.0 / math.pi, 0.5),
     ("SPEED", "kts"): (lambda v: v * 3600.0 / 1852.0, 0.05),
 }
-UNRECOGNISED = [("TEMPERATURE", "kelvin"), ("TEMPERATURE", "r"), ("ANGLE", "grad"), ("SPEED", "kmh"), ("PRESSURE", "atm"),
+UNRECOGNISED = [("SPEED", "deg"), ("PRESSURE", "f"), ("TEMPERATURE", "bar"), ("ANGLE", "kts"), ("TEMPERATURE", "deg"), ("ANGLE", "c"),
+                ("SPEED", "psi"), ("PRESSURE", "kts"), ("POTENTIAL_DIFFERENCE", "deg"), ("LENGTH", "c"), ("ELECTRICAL_CURRENT", "bar"),
+                ("ANGULAR_VELOCITY", "deg"), ("TEMPERATURE", "kelvin"), ("TEMPERATURE", "r"), ("ANGLE", "grad"), ("SPEED", "kmh"), ("PRESSURE", "atm"),
                 ("LENGTH", "ft"), ("DISTANCE", "nm"), ("VOLUME", "gal"), ("FREQUENCY", "rpm"), ("ELECTRICAL_CURRENT", "ma")]
 
 
@@ -55,8 +57,12 @@ def pref_maps(rng):
     if q in mixed:
         del mixed[q]
     maps.append((lib, mixed))
-    for q, u in rng.sample(UNRECOGNISED, 3):
+    for q, u in rng.sample(UNRECOGNISED, 6):
         maps.append(({getattr(PhysicalQuantities, q): variant(u, rng)}, {}))
+    # a unit that is valid, but for another quantity, next to a correct preference
+    q, u = rng.choice(UNRECOGNISED[:8])
+    if q != "TEMPERATURE":
+        maps.append(({getattr(PhysicalQuantities, q): variant(u, rng), PhysicalQuantities.TEMPERATURE: "C"}, {"TEMPERATURE": "c"}))
     return maps
 
 
@@ -104,7 +110,7 @@ def run_shard(spec, acc):
                 continue
             if m0 is None:
                 continue
-            picks = list(range(len(maps))) if not quick else rng.sample(range(len(maps)), 4)
+            picks = list(range(len(maps))) if not quick else rng.sample(range(len(maps)), 6)
             for mi in picks:
                 lib_map, want_map = maps[mi]
                 # mostly the long-lived decoder of this preference map (it has seen every other definition of the
